@@ -1,5 +1,5 @@
 from .. import facts
-from ..rules import sampling, tables, geometry, traps, prefetch
+from ..rules import sampling, tables, geometry, traps, prefetch, alloc
 
 
 def run(ck):
@@ -14,3 +14,5 @@ def run(ck):
     sampling.r11_rounding_epsilon(ck, P)
     sampling.r12_wrap_is_a_loop(ck, P)
     prefetch.r10_no_unconsumed_fetch(ck, P)
+    prefetch.r11_tail_access_needs_remaining_count(ck, P)
+    alloc.r9_failure_is_atomic(ck, P)      # C15-R9: a failed setter must not leave the filter kind ahead of its parameter block (the block is then read with the wrong layout)
